@@ -545,6 +545,32 @@ package badger
 //@   loop 2 invariant[range] rangeindex < len(build.Levels)
 //@   loop 2 invariant[tables] unchanged(build.Tables) && build.Creations == old(build.Creations) && build.Deletions == old(build.Deletions) && build.Levels == old(build.Levels) && levelMapsOK(build)
 
+// A create change carries exactly the id, level, key id and compression it was asked for.
+//@ func newCreateChange
+//@   props C17
+//@   domain 0 <= level && level < 256
+//@   ensures[faithful] result != nil && fresh(result) && result.Id == id && result.Op == pb.ManifestChange_CREATE && result.Level == uint32(level) && result.KeyId == keyID && result.Compression == uint32(c)
+//@   assigns nothing
+
+// A rewrite (and a clone) describes every table by a create change with the table's own level,
+// key id and compression.
+//@ func (*Manifest).asChanges
+//@   props C17
+//@   light
+//@   assert[table-as-recorded] before call newCreateChange : arg0 in m.Tables && arg1 == int(m.Tables[arg0].Level) && arg2 == m.Tables[arg0].KeyID && arg3 == m.Tables[arg0].Compression
+
+// An automatic rewrite writes one change set holding asChanges() of the whole manifest, with its
+// length and checksum, syncs and closes the new file without error, and only then renames it
+// over the MANIFEST.
+//@ func helpRewrite
+//@   props C17 C08
+//@   light
+//@   assert[whole-manifest] before call Marshal : called(asChanges#1) && set.Changes == ret(asChanges#1)
+//@   assert[length-recorded] before call PutUint32#1 : arg2 == uint32(len(ret0(Marshal#1)))
+//@   assert[checksum-of-changes] before call Checksum : arg0 == ret0(Marshal#1)
+//@   assert[synced-and-closed-before-rename] before call Rename : called(Write#1) && ret1(Write#1) == nil && called(Sync#1) && ret(Sync#1) == nil && called(Close#4) && ret(Close#4) == nil
+//@   assert[creations-counted] before return : result2 == nil ==> result1 == old(len(m.Tables))
+
 //@ func applyChangeSet
 //@   props C17
 //@   light
